@@ -245,6 +245,7 @@ inductive Change (s s' : State) (op : Op) : Prop
          (e2 : ∀ k, AMap.get? s'.minUnits k = AMap.get? s.minUnits k)
   | modify (sym : String) (t t' : Token) (ht : AMap.get? s.tokens sym = some t)
          (hsym : t'.symbol = t.symbol) (hmu : t'.minUnit = t.minUnit) (hsc : t'.scale = t.scale)
+         (hinit : t'.initialSupply = t.initialSupply)
          (hown : t'.owner = t.owner ∨ ∃ dst, op = .transferOwner t.owner dst sym ∧ t'.owner = dst)
          (e1 : ∀ k, AMap.get? s'.tokens k = if sym = k then some t' else AMap.get? s.tokens k)
          (e2 : ∀ k, AMap.get? s'.minUnits k = AMap.get? s.minUnits k)
@@ -261,7 +262,7 @@ theorem change_step (s s' : State) (op : Op) (h : WF s) (hs : step s op = .ok s'
       (contains_false hc1) (contains_false hc2) (fun k => get?_set _ _ _ _) (fun k => get?_set _ _ _ _)
   | edit owner symbol name max mintable =>
     obtain ⟨t, ht, _, _, rfl⟩ := edit_ok hs
-    exact .modify symbol t (edited t name max mintable) ht rfl rfl rfl (Or.inl rfl)
+    exact .modify symbol t (edited t name max mintable) ht rfl rfl rfl rfl (Or.inl rfl)
       (fun k => get?_set _ _ _ _) (fun _ => rfl)
   | mint owner to denom amount =>
     obtain ⟨_, _, sym, s1, _, h1, h2⟩ := mint_ok hs
@@ -273,7 +274,7 @@ theorem change_step (s s' : State) (op : Op) (h : WF s) (hs : step s op = .ok s'
     exact .same (fun _ => rfl) (fun _ => rfl)
   | transferOwner src dst symbol =>
     obtain ⟨_, t, ht, ho, rfl⟩ := transferOwner_ok hs
-    exact .modify symbol t { t with owner := dst } ht rfl rfl rfl (Or.inr ⟨dst, by rw [ho], rfl⟩)
+    exact .modify symbol t { t with owner := dst } ht rfl rfl rfl rfl (Or.inr ⟨dst, by rw [ho], rfl⟩)
       (fun k => get?_set _ _ _ _) (fun _ => rfl)
   | swapFee sender to denom amount =>
     obtain ⟨_, tb, target, ratio, tm, b, m, _, _, _, _, h2⟩ := swapFee_ok hs
@@ -282,7 +283,7 @@ theorem change_step (s s' : State) (op : Op) (h : WF s) (hs : step s op = .ok s'
   | deploy authority name symbol minUnit scale =>
     obtain ⟨t, hb, hc, rfl⟩ := deploy_ok hs
     rcases buildErc20_cases h hb with ⟨e1, e2⟩ | ⟨e1, e2, _, _, _⟩
-    · refine .modify t.symbol t { t with contract := s.nonce + 1 } e1 rfl rfl rfl (Or.inl rfl)
+    · refine .modify t.symbol t { t with contract := s.nonce + 1 } e1 rfl rfl rfl rfl (Or.inl rfl)
         (fun k => get?_set _ _ _ _) ?_
       intro k
       show AMap.get? (AMap.set s.minUnits t.minUnit t.symbol) k = _
@@ -330,7 +331,7 @@ theorem keeps_step (s s' : State) (op : Op) (h : WF s) (hs : step s op = .ok s')
   cases change_step s s' op h hs with
   | same e1 e2 =>
     exact ⟨fun sym t ht => ⟨t, by rw [e1]; exact ht, rfl, rfl, rfl⟩, fun m sym hm => by rw [e2]; exact hm⟩
-  | modify sym t t' ht hsym hmu hsc _ e1 e2 =>
+  | modify sym t t' ht hsym hmu hsc _ _ e1 e2 =>
     constructor
     · intro sym2 t2 ht2
       by_cases hk : sym = sym2
@@ -453,7 +454,7 @@ theorem owner_changes_only_by_transfer (s : State) (op : Op) (h : WF s) (sym : S
     simp only at ht'
     cases change_step s s' op h hs with
     | same e1 _ => rw [e1, ht] at ht'; cases ht'; exact absurd rfl hne
-    | modify sym2 t2 t2' ht2 _ _ _ hown e1 _ =>
+    | modify sym2 t2 t2' ht2 _ _ _ _ hown e1 _ =>
       rw [e1] at ht'
       by_cases hk : sym2 = sym
       · subst hk
